@@ -274,6 +274,10 @@ func (r *FeatureLocal) SetWriteApprovalTimeout(duration time.Duration) {
 }
 
 func (r *FeatureLocal) CleanWriteApprovalCaches(ski string) {
+	// same lock order as in ApproveOrDenyWrite
+	r.muxWriteReceived.Lock()
+	defer r.muxWriteReceived.Unlock()
+
 	r.muxResponseCB.Lock()
 	defer r.muxResponseCB.Unlock()
 
